@@ -291,7 +291,11 @@ void devh_xfer(int which, int T, int mode, int rc, const dev_data_snap_t *pre, c
         if (!rd && rc >= 0) { hx_fail(RES, "c26-needless-transfer", "%s(device %d, W) on tile %ld requested a transfer from device %d for a write-only access: {%s}", wn[which], T, pre->key, rc, a); return; }
         /* (3) the source named holds the newest version */
         if (rc >= 0 && !under) {
-            if (rc == T || !valid(pre, rc)) { hx_fail(RES, "c26-bad-source", "%s(device %d, %s%s) on tile %ld named device %d as the source, which %s: {%s}", wn[which], T, rd ? "R" : "", wr ? "W" : "", pre->key, rc, rc == T ? "is the target itself" : "holds no valid copy", a); return; }
+            if (rc == T || !valid(pre, rc)) {
+                hx_fail(RES, "c26-bad-source", "%s(device %d, %s%s) on tile %ld named device %d as the source, which %s: {%s}%s", wn[which], T, rd ? "R" : "", wr ? "W" : "", pre->key, rc, rc == T ? "is the target itself" : "holds no valid copy", a,
+                        rc != T && rc == pre->owner && !(rc < pre->ndev && pre->c[rc].present) ? " [stale-owner-device: owner_device still names a device whose copy was evicted]" : "");
+                return;
+            }
             if (pre->c[rc].version != newest) { hx_fail(RES, "c26-stale-source", "%s(device %d, %s%s) on tile %ld named device %d (version %u) as the source but the newest valid version is %u: {%s}", wn[which], T, rd ? "R" : "", wr ? "W" : "", pre->key, rc, pre->c[rc].version, newest, a); return; }
         }
         /* (4) a write access makes the target the owner */
@@ -632,6 +636,7 @@ static void describe_abort(char *buf, size_t n)
         size_t l = strlen(buf);
         char *tg = strstr(st, " [device-memory-full-of-dirty-copies");
         if (!tg) tg = strstr(st, " [lru-leak");
+        if (!tg) tg = strstr(st, " [device-memory-exhausted");
         if (tg && l + 1 < n) snprintf(buf + l, n - l, "%s", tg);
     }
 }
